@@ -162,6 +162,31 @@ K['k8_store_then_endpgm'] = PRO + """
   flat_store_dword v[7:8], v6
   s_endpgm
 """
+K['k9_exit_with_pending_store_while_others_wait'] = PRO + """
+  v_readfirstlane_b32 s14, v0
+  s_lshr_b32 s14, s14, 6
+  s_cmp_eq_u32 s14, 0
+  s_cbranch_scc0 L_others
+  s_waitcnt lgkmcnt(0)
+""" + gaddr('v7','v8','s4','s5') + """
+  v_add_u32 v6, vcc, 9, v0
+  flat_store_dword v[7:8], v6
+  s_endpgm
+L_others:
+  v_lshlrev_b32 v3, 2, v0
+  ds_write_b32 v3, v0
+  s_waitcnt lgkmcnt(0)
+  s_barrier
+  v_add_u32 v4, vcc, 64, v0
+  v_and_b32 v4, s6, v4
+  v_lshlrev_b32 v5, 2, v4
+  ds_read_b32 v6, v5
+""" + gaddr('v7','v8','s4','s5') + """
+  s_waitcnt lgkmcnt(0)
+  flat_store_dword v[7:8], v6
+  s_waitcnt vmcnt(0)
+  s_endpgm
+"""
 
 def assemble(name, src, mcpu='gfx803'):
     p = subprocess.run(['llvm-mc-14', '-arch=amdgcn', '-mcpu=' + mcpu, '-show-encoding'], input=src, capture_output=True, text=True)
